@@ -11,8 +11,8 @@ def shortest(bits_hex):
 
 
 def expected(d, pat):
-    """list of acceptable renderings (more than one only when the rounded magnitude is zero for a
-    negative input: '-0.00' and '0.00' are both accepted)"""
+    """list of acceptable renderings (exactly one: the sign of a negative input is kept even when the rounded
+    magnitude is zero, '-0.00', as the property says and as the library and Excel do)"""
     pct = pat.endswith("%")
     p = pat.rstrip("%")
     grp = p.startswith("#,##")
@@ -25,7 +25,7 @@ def expected(d, pat):
         ip = "{:,}".format(int(ip))
     body = ip + ("." + fp if dec else "") + ("%" if pct else "")
     if x < 0:
-        return ["-" + body] + ([body] if q == 0 else [])
+        return ["-" + body]
     return [body]
 
 
